@@ -453,6 +453,8 @@ class Interp:
             return self.call_closure(f, args, kwargs, node)
         if isinstance(f, OpaqueFn):
             return f.apply(self, args, kwargs)
+        if isinstance(f, Sym) and isinstance(f.ty, tuple) and f.ty[0] == 'opaque' and f.ty[1] in M.OPAQUE_CALL:
+            return M.OPAQUE_CALL[f.ty[1]](self, f, args)
         if isinstance(f, M.Model):
             return f(self, args, kwargs, node)
         if isinstance(f, types.MethodType):
